@@ -23,7 +23,8 @@ Record pobs := {
   po_ts : Z;                  (* the ts parameter the proxy wrote, parsed by the driver (-1: unparsable) *)
   po_status : Z; po_cleared : bool;
   po_obs_base : str;          (* Location without its query *)
-  po_params : list (str * str) }.   (* Location's query, decoded, in the order written *)
+  po_query : str;             (* Location's raw query string *)
+  po_params : list (str * str) }.   (* the same, split and decoded by Go's url.QueryUnescape, in the order written *)
 
 Record aobs := {
   ao_secret : str;            (* the authenticator's ProxyClientSecret *)
@@ -32,6 +33,8 @@ Record aobs := {
   ao_req : areq;
   ao_link : option Z;         (* Some d: "the three fields are those of the last proxy redirect,
                                  re-signed d seconds older" (d = 0: verbatim) — verified by the monitor *)
+  ao_raw : option str;        (* Some q: a GET whose raw query string is q; the fields of [ao_req] are then
+                                 what Go's url.ParseQuery returned for it *)
   ao_resp : aresp }.          (* the observation, in the model's response shape *)
 
 Record robs := {
@@ -72,7 +75,10 @@ Definition endpoint_eqb (a b : endpoint) : bool :=
 Definition proxy_mismatch (mac : str -> str -> str) (o : pobs) : bool :=
   let r := proxy_sign_out mac (po_base o) (po_secret o) (po_secure o) (po_origin_form o) (po_host o) (po_ts o) in
   negb ((p_status r =? po_status o)%Z && bool_eqb (p_clears r) (po_cleared o) &&
-        str_eqb (l_base (p_loc r)) (po_obs_base o) && params_eqb (l_params (p_loc r)) (po_params o)).
+        str_eqb (l_base (p_loc r)) (po_obs_base o) && params_eqb (l_params (p_loc r)) (po_params o) &&
+        (* on the wire: Values.Encode byte for byte, and the model's ParseQuery reads what Go's does *)
+        str_eqb (encode_query (l_params (p_loc r))) (po_query o) &&
+        match parse_query (po_query o) with Some ps => params_eqb ps (po_params o) | None => false end).
 
 Definition colon_slash_slash : str := [58; 47; 47].
 
@@ -98,14 +104,28 @@ Definition proxy_holds (mac : str -> str -> str) (o : pobs) : bool :=
 Definition auth_model (mac : str -> str -> str) (o : aobs) : aresp :=
   auth_sign_out mac (ao_secret o) (ao_provider o) (ao_clock o) (ao_req o).
 
+Definition is_post (m : method) : bool := match m with MPost => true | _ => false end.
+Definition is_get (m : method) : bool := match m with MGet => true | _ => false end.
+
 Definition auth_mismatch (mac : str -> str -> str) (o : aobs) : bool :=
-  negb (resp_eqb (auth_model mac o) (ao_resp o)).
+  match ao_raw o with
+  | None => negb (resp_eqb (auth_model mac o) (ao_resp o))
+  | Some raw =>
+      let q := ao_req o in
+      match parse_query raw with
+      | None =>      (* ParseForm returns the error: validateRedirectURI answers 400 *)
+          negb (is_get (q_method q) &&
+                resp_eqb {| r_body := BGate 400%Z; r_clears := false; r_revoked := [] |} (ao_resp o))
+      | Some ps =>
+          negb (is_get (q_method q) && str_eqb (form_get k_redirect_uri ps) (q_uri q) &&
+                str_eqb (form_get k_sig ps) (q_sig q) && str_eqb (form_get k_ts ps) (q_ts q) &&
+                resp_eqb (auth_model mac o) (ao_resp o))
+      end
+  end.
 
 Definition is_redirect_to (b : abody) (uri : str) : bool :=
   match b with BRedirect l => str_eqb l uri | _ => false end.
 Definition is_error_page (b : abody) : bool := match b with BGate _ => true | _ => false end.
-Definition is_post (m : method) : bool := match m with MPost => true | _ => false end.
-Definition is_get (m : method) : bool := match m with MGet => true | _ => false end.
 
 (* "a valid signed in-domain return address", and a method the route serves *)
 Definition request_valid (mac : str -> str -> str) (o : aobs) : bool :=
